@@ -23,11 +23,13 @@ class FakeMutex:
     """threading.Lock contract; `held_by_other`: a thread of this process is inside the critical section (it can
     only be blocked in lockf there)."""
 
-    def __init__(self, held_by_other=False):
+    def __init__(self, held_by_other=False, on_release=None):
         self.held = held_by_other
         self.mine = False
         self.aborted = False
         self.blocking_acquires = 0
+        self.on_release = on_release    # observer: called at the END of each critical section (state is published)
+        self.bad = []
 
     def acquire(self, blocking=True):
         if not self.held:
@@ -47,6 +49,8 @@ class FakeMutex:
             raise RuntimeError('release unlocked lock')
         self.held = False
         self.mine = False
+        if self.on_release is not None and not self.on_release():
+            self.bad.append('invariant broken at the end of a critical section')
 
     def __enter__(self):
         self.acquire()
@@ -291,10 +295,21 @@ def pool_enter(has: bool, rc: int, other: bool) -> bool:
         refs['k'] = ('OBJ', rc)
     if other:
         refs['o'] = ('OTHER', 1)
-    pool = L.ThreadSafeKeyedRefPool(FakeMutex(), refs, lambda k: made.append(k) or ('NEW', k), destroyed.append)
+    live = [o for o, _ in refs.values()]
+
+    def factory(k):
+        made.append(k)
+        live.append(('NEW', k))
+        return ('NEW', k)
+
+    def destroy(o):
+        destroyed.append(o)
+        live.remove(o)
+    mutex = FakeMutex(on_release=lambda: sorted(map(str, live)) == sorted(str(o) for o, _ in refs.values()))
+    pool = L.ThreadSafeKeyedRefPool(mutex, refs, factory, destroy)
     cm = pool('k')
     obj = cm.__enter__()
-    if destroyed:
+    if destroyed or mutex.bad:
         return False
     if other and refs.get('o') != ('OTHER', 1):
         return False
@@ -312,15 +327,29 @@ def pool_exit(rc: int, other: bool) -> bool:
     """
     made, destroyed = [], []
     refs = {}
-    pool = L.ThreadSafeKeyedRefPool(FakeMutex(), refs, lambda k: made.append(k) or ('NEW', k), destroyed.append)
+    live = []
+
+    def factory(k):
+        made.append(k)
+        live.append(('NEW', k))
+        return ('NEW', k)
+
+    def destroy(o):
+        destroyed.append(o)
+        live.remove(o)
+    # R1 as an invariant published at the end of every critical section: the live objects (open fds) are exactly
+    # the objects in the pool -- so removal from the pool and destruction are one atomic step
+    mutex = FakeMutex(on_release=lambda: sorted(map(str, live)) == sorted(str(o) for o, _ in refs.values()))
+    pool = L.ThreadSafeKeyedRefPool(mutex, refs, factory, destroy)
     cm = pool('k')
     obj = cm.__enter__()
     refs['k'] = (obj, rc)       # arbitrary number of current users
     if other:
         refs['o'] = ('OTHER', 1)
+        live.append('OTHER')
     made.clear()
     cm.__exit__(None, None, None)
-    if made or pool._lock.held:
+    if made or pool._lock.held or mutex.bad:
         return False
     if other and refs.get('o') != ('OTHER', 1):
         return False
@@ -387,7 +416,10 @@ def _fresh_env(ko):
     import C15_locks as TL
     L._thread_level_lock_ref = L.ThreadSafeKeyedRefPool(FakeMutex(), {}, lambda _k: _mk_tl(TL, ident))
     L._process_level_lock_ref = L.ThreadSafeKeyedRefPool(FakeMutex(), {}, lambda fd: _mk_pl(fd, fk))
-    L._fd_ref = L.ThreadSafeKeyedRefPool(FakeMutex(), {}, lambda p: fos.open(p, fos.O_RDWR), lambda fd: fos.close(fd))
+    fdrefs = {}
+    fdm = FakeMutex(on_release=lambda: sorted(fos.open_fds) == sorted(o for o, _ in fdrefs.values()))
+    L._fd_ref = L.ThreadSafeKeyedRefPool(fdm, fdrefs, lambda p: fos.open(p, fos.O_RDWR), lambda fd: fos.close(fd))
+    fos.fd_mutex = fdm
     return fk, fos, ident
 
 
@@ -444,7 +476,7 @@ def _mk_pl(fd, fk):
 
 
 def _quiescent(fk, fos):
-    return (L._thread_level_lock_ref._refs == {} and L._process_level_lock_ref._refs == {} and L._fd_ref._refs == {}
+    return (not fos.fd_mutex.bad and L._thread_level_lock_ref._refs == {} and L._process_level_lock_ref._refs == {} and L._fd_ref._refs == {}
             and fos.open_fds == [] and fk.km == 0)
 
 
@@ -511,6 +543,8 @@ def path_two(ko: int, sh1: bool, bl1: bool, re1: bool, t2: int, sh2: bool, bl2: 
         if got == 'blocked':
             return True     # history ends: thread is waiting, thread 1 still holds
     # after the second request finished or was refused, thread 1's hold must be intact
+    if fos.fd_mutex.bad:
+        return False
     if fos.open_fds != [fd1] or fos.closed != [] or fk.km != (1 if sh1 else 2):
         return False
     tl = L._thread_level_lock_ref._refs.get('/x/f')
